@@ -28,9 +28,10 @@ class SmtSys:
     """snap = (root, db, proof) with proof = None | (key, value, branch tuple)"""
 
     def __init__(self, *, key_size=1, default=b"", keys=("00", "01", "80", "81", "40"), values=("a", "bb", ""), seed=0, props=("C14",),
-                 track=None, forms=("m",), truncations=True, probes=("ff", "02")):
+                 track=None, forms=("m",), truncations=True, probes=("ff", "02"), quiet=0):
         self.kw = dict(key_size=key_size, default=default.hex(), keys=list(keys), values=list(values), seed=seed, props=sorted(props),
-                       track=track, forms=list(forms), truncations=truncations, probes=list(probes))
+                       track=track, forms=list(forms), truncations=truncations, probes=list(probes), quiet=quiet)
+        self.quiet = quiet
         self.key_size = key_size
         self.default = default
         fill = 0 if seed == 0 else (seed * 7919) % 90
@@ -81,6 +82,11 @@ class SmtSys:
         evs = [("op", op, f) for op in self.ops for f in self.forms]
         if self.track is not None and snap[2] is None and self.ref.val(model, self.track) != b"":
             evs.append(("track",))
+        if self.quiet and snap[2] is not None:
+            # k updates streamed to the SAME proof object with no observation of the proof in between
+            import itertools
+            for seq in itertools.product(self.ops, repeat=self.quiet):
+                evs.append(("quiet",) + seq)
         return evs
 
     def model_step(self, m, op):
@@ -121,6 +127,18 @@ class SmtSys:
             post = (snap[0], snap[1], self.psnap(p))
             viols += self.proof_in_sync(p, model, snap[0], "track")
             return Step(post, model, viols)
+        if ev[0] == "quiet":
+            m2 = model
+            try:
+                for op in ev[1:]:
+                    m2, v = self.model_step(m2, op)
+                    ret = self.apply(t, op, "m")
+                    p.update(op[1], v, tuple(ret))
+            except Exception as e:  # noqa
+                viols.append(V("C15", "update_raised", f"a stream of updates raised {type(e).__name__}", event="quiet", exc=repr(e)[:120]))
+                return Step(None, m2, viols)
+            viols += self.proof_in_sync(p, m2, self.ref.root(m2), "updates without intermediate reads")
+            return Step((t.root_hash, dict(t.db), self.psnap(p)), m2, viols)
         _, op, form = ev
         m2, v = self.model_step(model, op)
         pre_db = snap[1]
@@ -285,6 +303,10 @@ class SmtSys:
         t = live["t"]
         if ev[0] == "track":
             live["p"] = SparseMerkleProof(self.track, t.get(self.track), t.branch(self.track))
+            return
+        if ev[0] == "quiet":
+            for op in ev[1:]:
+                self.live_apply(live, ("op", op, "m"))
             return
         _, op, form = ev
         m2, v = self.model_step(live["m"], op)
